@@ -411,7 +411,8 @@ fn ta_files(dir: &std::path::Path) -> Vec<Vec<u8>> {
 fn run_c10(ctx: &mut Ctx, rep: &mut Report) {
     let mut rng = ctx.rng("c10");
     let mut b = match Builder::new() { Ok(b) => b, Err(e) => { rep.inconclusive(e); return } };
-    let states = [TaState::Good, TaState::WrongKey, TaState::Garbage, TaState::Expired, TaState::Unreachable];
+    let states = [TaState::Good, TaState::WrongKey, TaState::Garbage, TaState::Expired, TaState::Unreachable, TaState::NotYetValid];
+    if !crate::clock::self_test() { rep.inconclusive("virtual clock shim inactive"); return }
     let n = ctx.tier.pick(30usize, 500);
     for i in 0..n {
         if !ctx.time_left() { rep.note("time budget reached"); break }
@@ -423,32 +424,37 @@ fn run_c10(ctx: &mut Ctx, rep: &mut Report) {
         // stored[tal][uri] = Some(state of the last decodable download)
         let mut stored: Vec<Vec<Option<TaState>>> = w.tals.iter().map(|t| vec![None; t.uris.len()]).collect();
         let mut trace = Vec::new();
+        let mut offset: i64 = 0;
         for run in 0..runs {
-            for t in 0..w.tals.len() { for u in 0..w.tals[t].uris.len() { w.tals[t].uris[u] = if run == 0 && rng.chance(1, 2) { TaState::Good } else { states[rng.usize(5)].clone() }; } }
+            // the wall clock may move two hours between runs: a stored certificate that was not yet valid becomes valid
+            if run > 0 && rng.chance(1, 3) { offset += 2 * 3600; }
+            for t in 0..w.tals.len() { for u in 0..w.tals[t].uris.len() { w.tals[t].uris[u] = if run == 0 && rng.chance(1, 2) { TaState::Good } else if run == 0 && rng.chance(1, 3) { TaState::NotYetValid } else { states[rng.usize(6)].clone() }; } }
             let p = b.publish(&w);
             env.serve(&p);
             // An unreachable module must not leave the previous copy in the rsync cache for this check:
             // the property speaks about the stored copy. (The rsync cache copy is a third place; remove it.)
             for t in 0..w.tals.len() { for (u, st) in w.tals[t].uris.iter().enumerate() { if *st == TaState::Unreachable { let _ = std::fs::remove_dir_all(env.dir.join(format!("cache/rsync/ta{t}u{u}.rpki.test"))); } } }
             trace.push(json!(w.tals.iter().map(|t| format!("{:?}", t.uris)).collect::<Vec<_>>()));
-            ctx.begin_case(&json!({"case": i, "run": run}));
+            ctx.begin_case(&json!({"case": i, "run": run, "clock_offset": offset}));
+            crate::clock::set_offset(offset);
             let out = run_engine(&env.config, true, &LocalExceptions::empty());
+            crate::clock::set_offset(0);
             rep.eval();
-            let replay = json!({"world": w, "history_of_uri_states": trace, "run": run});
+            let replay = json!({"world": w, "history_of_uri_states": trace, "run": run, "clock_offset_s": offset});
             let Some(snap) = out.snapshot else { rep.violation("C10/run-failed", "run failed", replay); break };
             // model
-            let usable = |s: &TaState| *s == TaState::Good;
+            let usable = |s: &TaState| *s == TaState::Good || (*s == TaState::NotYetValid && offset >= 3600);
             let mut tal_ok = vec![false; w.tals.len()];
             for t in 0..w.tals.len() {
                 for u in 0..w.tals[t].uris.len() {
                     let dl = &w.tals[t].uris[u];
-                    let decodable = matches!(dl, TaState::Good | TaState::WrongKey | TaState::Expired);
+                    let decodable = matches!(dl, TaState::Good | TaState::WrongKey | TaState::Expired | TaState::NotYetValid);
                     let effective = if decodable { stored[t][u] = Some(dl.clone()); Some(dl.clone()) } else { stored[t][u].clone() };
                     if let Some(s) = effective { if usable(&s) { tal_ok[t] = true; break } }
                 }
             }
             let pol = Policy::default();
-            let e = expect_with(&w, w.now, &pol, &|t| tal_ok[t], &|ca| if fetched_point_usable(&w, ca, &pol) { Some(point_payload(&w, ca, w.now, &pol)) } else { None });
+            let e = expect_with(&w, w.now + offset, &pol, &|t| tal_ok[t], &|ca| if fetched_point_usable(&w, ca, &pol) { Some(point_payload(&w, ca, w.now, &pol)) } else { None });
             let o = observe(&snap);
             let (surplus, missing) = compare(&e, &o, &ec_hex(&b));
             for s in surplus.iter().take(2) { rep.violation("C10/payload-from-unusable-ta", format!("served although no TAL URI yields a usable trust anchor: {s}"), replay.clone()); }
